@@ -158,3 +158,97 @@ def jobs_for(check, mirror, rb_srv, jobs):
                                      need_reach=["reach:wellformed"] + (["reach:malformed"] if op in ("add", "replace", "remove") else [])))
     for op in ("add", "replace", "remove", "clear", "deploy"):
         mk(op)
+
+
+# ----------------------------------------------------------------------------- typed values in TCK format round-trip (server/src/dto.rs)
+KIND_CONVERTER = {"String": "string", "Number": "number", "Boolean": "boolean", "Date": "date", "Time": "time", "DateTime": "date_time",
+                  "DaysAndTimeDuration": "duration", "YearsAndMonthsDuration": "duration", "Null": "nil"}
+FEEL_OF_KIND = {"String": '"a"', "Number": "1.5", "Boolean": "true", "Date": 'date("2021-10-03")', "Time": 'time("08:00:00")', "DateTime": 'date and time("2021-10-03T08:00:00")',
+                "DaysAndTimeDuration": 'duration("P1DT2H")', "YearsAndMonthsDuration": 'duration("P1Y2M")', "Null": "null"}
+
+
+def tck_jobs(check, mirror, crate, U, jobs, rb_srv=None):
+    check.bounds.append("TCK values: a value of each simple kind (string, number, boolean, date, time, date and time, both durations, null) at the top level of a result (OutputNodeDto) "
+                        "and nested in a list / context (ValueDto), converted to its DTO and read back")
+    check.assumptions.append("TCK values: Value::to_string gives the value's text (an identity here), Value::try_from_xsd_* are recorders returning a value of their kind "
+                             "(their own parsing: C07, C14); the JSON (de)serialisation of the DTOs by serde is not executed")
+
+    def mk(kind, nested):
+        def setup(ex, st):
+            text = StrV(None, id=z3.IntVal(77))
+            v = En("Value", z3.IntVal(U.idx(kind)), {kind: ((text,) if kind == "String" else (none(),) if kind == "Null" else (Opaque("Payload", kind),))})
+
+            def m_to_string(ex, st, callee, args, dest_ty):
+                yield st, text
+
+            def m_xsd(ex, st, callee, args, dest_ty):
+                which = callee.rsplit("try_from_xsd_", 1)[1]
+                t = deref(ex, st, args[0]) if isinstance(args[0], Ref) else args[0]
+                st.log.append(("converter", which, t))
+                yield st, En("Result", z3.IntVal(0), {"Ok": (En("Value", z3.IntVal(U.idx("Irrelevant")), {"Irrelevant": ()}),)})
+            models = [(re.compile(r"^<(dmntk_feel::values::)?Value as ToString>::to_string$"), m_to_string),
+                      (re.compile(r"^(dmntk_feel::values::)?Value::try_from_xsd_\w+$"), m_xsd),
+                      (re.compile(r"^errors::\w+$|^(invalid|missing)_parameter$"), lambda ex, st, c, a, d: iter([(st, Opaque("Error", info=c))])),
+                      (re.compile(r"^format$|^std::fmt::format$|^alloc::fmt::format$"), m_format_stub)]
+
+            def runner(ex, st):
+                ex.models[:0] = models
+                if nested:
+                    outs = ex.run("<ValueDto as TryFrom<&Value>>::try_from", [Ref(ex.new_cell(st, v, "value"))], st)
+                else:
+                    outs = ex.run("<OutputNodeDto as TryFrom<Value>>::try_from", [v], st)
+                for o in outs:
+                    if o.kind != "return":
+                        yield o
+                        continue
+                    r = o.value
+                    if ex.concrete(r.disc) != 0:
+                        yield Outcome("return", o.st, ("not converted", None))
+                        continue
+                    dto = r.alts["Ok"][0]
+                    if not nested:   # OutputNodeDto { value: Option<ValueDto> }
+                        inner = dto.fields[0]
+                        if ex.concrete(inner.disc) != 1:
+                            yield Outcome("return", o.st, ("no value", None))
+                            continue
+                        dto = inner.alts["Some"][0]
+                    for o2 in ex.run("<WrappedValue as TryFrom<&ValueDto>>::try_from", [Ref(ex.new_cell(o.st, dto, "dto"))], o.st):
+                        if o2.kind != "return":
+                            yield o2
+                        else:
+                            yield Outcome("return", o2.st, ("read back", o2.value))
+            return runner, None, {"kind": kind, "nested": nested}
+
+        def post(ex, o, v):
+            what, r = o.value
+            conv = [e for e in o.st.log if e[0] == "converter"]
+            want = KIND_CONVERTER[kind]
+            props = [("the value is converted to its DTO and read back", z3.BoolVal(what == "read back" and r is not None and ex.concrete(r.disc) == 0))]
+            if what == "read back" and r is not None and ex.concrete(r.disc) == 0:
+                back = r.alts["Ok"][0]
+                back = back.fields[0] if isinstance(back, Adt) else back
+                if want == "string":
+                    okk = not conv and isinstance(back, En) and ex.concrete(back.disc) == U.idx("String") and isinstance(back.alts["String"][0], StrV) and ex.concrete(back.alts["String"][0].attrs.get("id")) == 77
+                elif want == "nil":
+                    okk = not conv and isinstance(back, En) and ex.concrete(back.disc) == U.idx("Null")
+                else:
+                    names = {"number": ("decimal", "integer", "double")}.get(want, (want,))
+                    okk = len(conv) == 1 and conv[0][1] in names and isinstance(conv[0][2], StrV) and ex.concrete(conv[0][2].attrs.get("id")) == 77
+                props.append(("reading the DTO back goes through the converter of the value's own kind, with the value's own text (type tag and text round-trip)", z3.BoolVal(bool(okk))))
+            return props
+
+        def replay(i, rb):
+            """the real conversions on a value of that kind: DTO (serde JSON) and the value read back from it"""
+            _, out, _ = replay_call(rb_srv, ["tck", FEEL_OF_KIND[kind]], timeout=60)
+            m = re.match(r"^value=(.*?) \|\| top (.*?) back=(.*?) \|\| nested (.*?) back=(.*)$", out)
+            if not m:
+                return out.startswith("PANIC"), "tck replay: " + out[:160]
+            orig, back = m.group(1), (m.group(5) if nested else m.group(3))
+            want = "list<%s>:[%s]" % tuple(orig.split(":", 1)) if nested else orig
+            norm = lambda x: x.replace(" ", "")
+            return norm(back) != norm(want), "%s as %s -> %s, read back as %s (value %s)" % (FEEL_OF_KIND[kind], "a list item" if nested else "a result", (m.group(4) if nested else m.group(2))[:110], back[:60], orig[:40])
+        jobs.append(lambda c: decide(c, crate, "tck/round_trip/%s/%s" % ("nested" if nested else "top", kind), setup, post, replay if rb_srv else None, rb_srv, models=[] + fv.VALUE_MODELS, unwind=8,
+                                     describe=lambda m, v: dict(v), budget_s=300, min_paths=1, max_cex=1))
+    for kind in KIND_CONVERTER:
+        for nested in (False, True):
+            mk(kind, nested)
